@@ -17,13 +17,17 @@ PROP = {'n_quick': 240,
              "the harness's independent encoders are the bech32 crate's iterator API (with_checksum/with_witness_version) and base58::encode_check"],
  'assumes': ['strings are byte strings; every byte >= 128 is rejected where the Rust code rejects a non-ASCII char']}
 
-TEXT = {'text': 'Kernel-checked, for every hash function and key-validity predicate: every well-formed segwit address (3 networks, blinded or not, versions 0..16, '
-         'program 2..40 / 20|32) displays to a text that parse_with_params and FromStr map back to it (C06_roundtrip_segwit, via checksum create/verify, 8<->5 '
-         'regrouping and decoder completeness); every parsed address outside the known class F5 has a 20-byte hash or a version<=16 program of 2..40 bytes '
-         '(20|32 for v0) with the checksum variant its version requires (C06_parsed_shape); FromStr is parse_with_params of one built-in network; two built-in '
-         'networks accept the same string only in the residual segwit-vs-base58check case (C06_one_network_partial). F5 is re-derived as '
-         'C06_blinded_short_program_refuted. Base58 round trip, the upper-case form and canonicity are checked on the implementation only (harness predicates '
-         '+ model/implementation agreement), not proved.',
+TEXT = {'text': 'Kernel-checked, for every hash function (returning >= 4 bytes where base58check is created) and key-validity predicate: every well-formed address '
+         '(3 networks, blinded or not; p2pkh, p2sh, witness versions 0..16 with program 2..40 / 20|32) displays to a text that parse_with_params and FromStr '
+         'map back to it, segwit forms also in upper case (C06_roundtrip; via the base-58/256 positional numeral lemma C06_numeral / C06_base58_codec, '
+         'base58check create/verify, bech32 checksum create/verify, 8<->5 regrouping, decoder completeness, and C06_base58_dispatch: a finite vm_compute '
+         'sweep over the nine version bytes x two payload lengths showing a displayed base58check text never starts like a built-in HRP); parsing then '
+         'displaying returns the lower-case segwit string / the base58check string itself for every accepted string (C06_canonical; via checksum '
+         'uniqueness, 5->8->5 regrouping under the padding rules, both letter cases of the character set, encode58(decode58 s) = s); two built-in networks '
+         'never accept the same string (C06_one_network, no residual case); every parsed address outside the known class F5 has a 20-byte hash or a '
+         'version<=16 program of 2..40 bytes (20|32 for v0) with the checksum variant its version requires (C06_parsed_shape); FromStr is parse_with_params '
+         'of one built-in network. F5 is re-derived as C06_blinded_short_program_refuted. Character-for-character agreement of the model encoders with the '
+         "crate's Display and with independent encoders is the per-run correspondence check.",
  'design_ref': 'DESIGN.md section 6, C06',
  'note': 'Trusted: Coq kernel incl. vm_compute; hand-written Gallina model of src/address.rs, src/blech32/decode.rs, bech32 0.11 and base58ck; upstream bech32 '
          'constants by hand; SHA-256d and secp256k1 key validity abstract in theorems; translator regexes; extraction + OCaml driver audited by in-kernel '
